@@ -149,6 +149,9 @@ def norm(
     """
     if isinstance(ord, Real) and np.isinf(ord):
         op = mg_max if ord > 0 else mg_min
+        if not np.issubdtype(np.asarray(x).dtype, np.floating):
+            # numpy's norm always returns floats
+            x = np.asarray(x, dtype=float)
         abs_ = absolute(x, constant=constant)
         out = op(abs_, axis=axis, keepdims=keepdims)
 
